@@ -102,6 +102,17 @@ class G:
         return "".join(terms)
 
 
+_TOK = __import__("re").compile(r"[A-Za-z_]\w*|(?:\d+\.?\d*|\.\d+)(?:[dDeE][-+]?\d+)?")
+
+
+def realify(e: str) -> str:
+    """every integer literal (not part of an identifier, a decimal or an exponent) written as a real"""
+    def sub(m):
+        t = m.group(0)
+        return t + ".0d0" if t.isdigit() else t
+    return _TOK.sub(sub, e)
+
+
 def split_terms(e):
     """top-level additive terms of an expression text (for the cancellation-robust scale)"""
     terms, depth, cur = [], 0, ""
@@ -393,7 +404,13 @@ def run_case(case, ctx):
         for ti, t in enumerate(split_terms(ex["text"])):
             fmap[(i, "term", ti)] = len(ftexts)
             ftexts.append(t.lstrip("+"))
-        for mech, t in (ex.get("alts") or {}).items():
+        alts = dict(ex.get("alts") or {})
+        real = realify(ex["text"])
+        if real != ex["text"]:
+            # explanation model for integer arithmetic: the same expression with every integer literal made real
+            alts["C12/integer-literal-arithmetic-evaluated-as-real"] = real
+        ex["alts_all"] = alts
+        for mech, t in alts.items():
             fmap[(i, "alt", mech)] = len(ftexts)
             ftexts.append(t)
     nv = len(case["vals"])
@@ -463,7 +480,7 @@ def run_case(case, ctx):
         if bad:
             vi, o, rv = bad
             w = {}
-            for mech in (ex.get("alts") or {}):
+            for mech in (ex.get("alts_all") or ex.get("alts") or {}):
                 if all(close(kev[v2]["k"][len(pad) + ai], ref.get((v2, fmap.get((i, "alt", mech), -1)), float("nan")), None, rel=1e-9) for v2 in range(nv)):
                     w["mechanism"] = mech
             viol.append(violation("value_changed_by_translation", f"`{ex['text']}`: C gives {o!r}, Fortran gives {rv!r} (valuation {vi})", expr=ex["text"],
